@@ -37,6 +37,8 @@
 /* rule -> documented contradiction code (0 = the rule has no CONTRADICTS case) */
 #define SPEC_C04_CODE_UserProvidedPublicationExistence                           0
 #define SPEC_C04_CODE_UserProvidedPublicationTimeVerification                    0
+#define SPEC_C04_CODE_UserProvidedPublicationTimeDoesNotSuit                     0
+#define SPEC_C04_CODE_RequireNoUserProvidedPublication                           0
 #define SPEC_C04_CODE_UserProvidedPublicationHashVerification                    SPEC_C04_PUB_4
 #define SPEC_C04_CODE_UserProvidedPublicationCreationTimeVerification            0
 #define SPEC_C04_CODE_PublicationsFileContainsSignaturePublication               0
